@@ -212,6 +212,9 @@ pub struct Key17
 {
     model: Model17,
     observed_applied: u32,
+    /// Entities in the implementation's world besides the markers (spawned systems, anything a call family leaves
+    /// behind): histories are merged only if the implementation agrees on it as well as the model.
+    other_entities: i64,
 }
 
 pub fn run17(hist: &[Op17]) -> StepResult<Key17>
@@ -259,7 +262,8 @@ pub fn run17(hist: &[Op17]) -> StepResult<Key17>
         }
     }
     let observed_applied = world.resource::<AppliedCount>().0;
-    StepResult{ key: Key17{ model, observed_applied }, violations, stop }
+    let other_entities = world.entities().len() as i64 - observed_applied as i64;
+    StepResult{ key: Key17{ model, observed_applied, other_entities }, violations, stop }
 }
 
 fn classify17(exp: &[Rec], got: &[Rec]) -> String
